@@ -108,7 +108,10 @@ ModuleIndexIn(mods, parts) == IF \E m \in 1..Len(mods) : mods[m] = parts
 ModuleIndexOf(parts) == ModuleIndexIn(modules, parts)
 
 Handles     == { x.h : x \in issued }
-LiveH(h)    == IF h.t = "inline" THEN TRUE ELSE table[h.i].kind # "dead"
+\* (a handle whose id names no slot of the table cannot come out of the specified actions; an observed one is
+\*  treated as live and unreadable, so that Stable reports it instead of TLC failing to evaluate table[h.i])
+InTable(h)  == h.i \in 1..Len(table)
+LiveH(h)    == IF h.t = "inline" THEN TRUE ELSE (~InTable(h) \/ table[h.i].kind # "dead")
 LiveHandles == { h \in Handles : LiveH(h) }
 IdsOf(parts) == { parts[k].i : k \in { j \in 1..Len(parts) : parts[j].t = "id" } }
 
@@ -271,7 +274,7 @@ Bounded == Len(table) <= MaxSlots /\ Len(modules) <= MaxMods /\ Len(tempNames) <
 
 -----------------------------------------------------------------------------
 (* Property layer (C17) *)
-Read(h) == IF h.t = "inline" THEN h.s ELSE table[h.i].str   \* a dead slot holds no string
+Read(h) == IF h.t = "inline" THEN h.s ELSE IF InTable(h) THEN table[h.i].str ELSE "<no such slot>"   \* a dead slot holds no string
 
 \* a live handle reads back exactly the string it was created from
 Stable    == \A x \in issued : LiveH(x.h) => Read(x.h) = x.s
